@@ -86,8 +86,8 @@ acceptance range), a report is integrated only at an index below 4032. -/
 theorem c12_index_in_range (off : Nat) (d : Dev) (r : Report) (hlen : d.reports.length = window) :
     integrateDev off d r ≠ none := by
   by_cases hw : r.ts < off ∨ off + window ≤ r.ts
-  · rw [integrateDev_outside off d r hw]; simp
-  · obtain ⟨d', b, hi, _⟩ := integrateDev_spec off d r hlen (by omega) (by omega)
+  · rw [c02h_integrateDev_outside off d r hw]; simp
+  · obtain ⟨d', b, hi, _⟩ := c02h_integrateDev_spec off d r hlen (by omega) (by omega)
     rw [hi]; simp
 
 /-- The impact job's write re-validates the device and the index. -/
